@@ -250,7 +250,8 @@ func enumStrings(alpha []string, maxLen int, f func(string)) {
 }
 
 func randPathString(r *lib.Rng, maxTok int) string {
-	toks := []string{"a", "b", ".", "..", "/", "/", "\\", ":", "?", "*", "[", "]", "-", "^", "\xc3\xa9", "c:", "//", "\\\\", "a/", "../", "./", "\\\\h\\s", "[a-b]", "[^a]", "\\*", "??", "ab", "C:\\", "\xff", "\xe2\x82"}
+	toks := []string{"a", "b", ".", "..", "/", "/", "\\", ":", "?", "*", "[", "]", "-", "^", "\xc3\xa9", "c:", "//", "\\\\", "a/", "../", "./", "\\\\h\\s", "[a-b]", "[^a]", "\\*", "??", "ab", "C:\\", "\xff", "\xe2\x82",
+		"\\\\.\\UNC\\", "\\\\.\\", "\\\\?\\", "\\??\\", "UNC", "unc", "h", "s", "//./UNC/", "\\\\?\\C:\\", "\\\\.\\unc", "nul", "COM1"}
 	n := r.Intn(maxTok + 1)
 	var sb strings.Builder
 	for i := 0; i < n; i++ {
@@ -388,23 +389,44 @@ func corrPath(seed uint64, tier string, replay []string) *lib.Result {
 		for i, l := range lines {
 			f := strings.Fields(l)
 			var impl, oracle string
+			// every evaluation of the implementation runs under a watchdog: a helper that never returns (a loop that lost
+			// its exit) is a violation with this line as failing input; the run of this OS type ends there (the goroutine
+			// cannot be stopped)
+			stuck := false
+			evalImpl := func(fn func() string) string {
+				ch := make(chan string, 1)
+				go func() { ch <- fn() }()
+				select {
+				case r := <-ch:
+					return r
+				case <-time.After(3 * time.Second):
+					stuck = true
+					return "!hang"
+				}
+			}
 			switch f[2] {
 			case "all1":
-				impl = implAll1(vfs, args[i][0])
+				impl = evalImpl(func() string { return implAll1(vfs, args[i][0]) })
 				if osn == "linux" {
 					oracle = oracleAll1Linux(args[i][0])
 				} else {
 					oracle = oracleAll1Win(args[i][0])
 				}
 			case "all2":
-				impl = implAll2(vfs, args[i][0], args[i][1], strings.Contains(model[i], "rel=!hang"))
+				mayHang := strings.Contains(model[i], "rel=!hang")
+				impl = evalImpl(func() string { return implAll2(vfs, args[i][0], args[i][1], mayHang) })
 				if osn == "linux" {
 					oracle = oracleAll2Linux(args[i][0], args[i][1])
 				} else {
 					oracle = oracleAll2Win(args[i][0], args[i][1], strings.Contains(model[i], "rel=!hang"))
 				}
 			case "iter":
-				impl = implIter(vfs, args[i][0], f[4:])
+				impl = evalImpl(func() string { return implIter(vfs, args[i][0], f[4:]) })
+			}
+			if stuck {
+				res.Mismatches = append(res.Mismatches, lib.Mismatch{Kind: "violation", Class: "path.helper-never-returns", What: fmt.Sprintf("a path helper of the emulated %s file system did not return within 3 s on %s (the model predicts %q)", osn, l, model[i]),
+					History: []string{l}, Impl: []string{"!hang"}, Model: []string{model[i]}})
+				break
 			}
 			// statistics
 			for _, fld := range strings.Fields(impl) {
